@@ -85,7 +85,7 @@ func runC18(b *mon.B) {
 		return
 	}
 	defer ref.Close()
-	ref.Net.KeepLog = false
+	ref.Net.SetKeepLog(false)
 	stock := &syncBuf{}
 	ref.Log.Forward = stockLogger{srvlog.New(30, stock)}
 	// what the loader logged while loading must not contain the scope secret either
